@@ -295,12 +295,14 @@ def sigFromPy(pobj):
         if pobj == {}:
             return 'a{sv}'
         same = True
-        vtype = None
+        first = None
         for k, v in pobj.items():
-            if vtype is None:
+            if first is None:
+                first = (k, v)
                 vtype = type(v)
             elif not isinstance(v, vtype):
                 same = False
+        k, v = first
         if same:
             return 'a{' + sigFromPy(k) + sigFromPy(v) + '}'
         else:
